@@ -142,9 +142,14 @@ def unify(patterns: Sequence[str], stmts: Sequence[Tuple[str, ast.AST]], bound: 
         pa, pb = getattr(a, "_parent", None), getattr(b_, "_parent", None)
         return pa is None or pb is None or pa is pb
 
+    budget = [400000]          # the search is exponential in the worst case: beyond the budget the patterns count as "no consistent match"
+
     def rec(i, b, used, strict):
         if i == len(patterns):
             return b, used
+        budget[0] -= 1
+        if budget[0] < 0:
+            return None, None
         rx, new = _compile(patterns[i], b)
         for j, (txt, node) in enumerate(stmts):
             m = rx.fullmatch(txt)
